@@ -56,6 +56,7 @@ class OpSequence(Harness):
     length = 4
     ops = tuple(OPS)
     render = True
+    anames = tuple(NAMES)          # attribute names (a namespace declaration such as xmlns:x can be put in: rendering treats those specially)
     def build(self):
         L = self.length
         self.kind = [z3.Int('op%d' % i) for i in range(L)]
@@ -65,11 +66,11 @@ class OpSequence(Harness):
         self.an2 = [z3.String('an2_%d' % i) for i in range(L)]; self.flag2 = [z3.Bool('fl2_%d' % i) for i in range(L)]
         self.init_n = z3.Int('root_attrs')          # the root is created with 0, 1 (a) or 2 (a, b) attributes
     def consts(self): return self.kind + self.nm + self.flag + self.an + self.an2 + self.flag2 + [self.init_n]
-    def domains(self): return {str(c): NAMES for c in self.nm + self.an + self.an2}
+    def domains(self): return {**{str(c): NAMES for c in self.nm}, **{str(c): list(self.anames) for c in self.an + self.an2}}
     def preconditions(self):
         allowed = [OPS.index(o) for o in self.ops]
         pre = [z3.Or(*[k == a for a in allowed]) for k in self.kind]
-        pre += [z3.Or(*[c == z3.StringVal(n) for n in NAMES]) for c in self.nm + self.an + self.an2]
+        pre += [z3.Or(*[c == z3.StringVal(n) for n in NAMES]) for c in self.nm] + [z3.Or(*[c == z3.StringVal(n) for n in self.anames]) for c in self.an + self.an2]
         pre += [a != b for a, b in zip(self.an, self.an2)] + [self.init_n >= 0, self.init_n <= 2]          # the merged list is duplicate-free (merge_necessity's precondition)
         return pre
     def run(self, m):
